@@ -408,6 +408,11 @@ def _poly(t, named_consts=True, opaque=None):
         return Poly.leaf(('bin', op, ('poly', a), ('poly', b)))
     if h == 'un' and t[1] == 'Neg':
         return -_poly(t[2], named_consts, opaque)
+    if h == 'field' and t[2] in ('x', 'y'):
+        # a component of a point/vector that was just built from its components (euclid constructors)
+        base = strip_all(t[1])
+        if base[0] == 'call' and isinstance(base[1], str) and len(base[2]) == 2 and (base[1].split('::')[-1] in ('vec2', 'point2') or base[1].endswith('Vector2D::<T, U>::new') or base[1].endswith('Point2D::<T, U>::new')):
+            return _poly(base[2][0 if t[2] == 'x' else 1], named_consts, opaque)
     if h == 'call':
         # min/max/etc stay opaque but with normalised arguments
         return Poly.leaf(('call', t[1], tuple(('poly', _poly(a, named_consts, opaque)) if a[0] in ('bin', 'cast', 'un', 'const', 'cnamed') else a for a in t[2])))
